@@ -13,6 +13,7 @@ import AnyVecModel.Proofs.KernelPush
 import AnyVecModel.Proofs.KernelClear
 import AnyVecModel.Proofs.KernelConsume
 import AnyVecModel.Proofs.KernelApiOps
+import AnyVecModel.Proofs.KernelCopyBytes
 namespace AnyVec
 namespace C01
 open World
@@ -282,6 +283,15 @@ theorem api_wrappers_are_the_source (cfg : Cfg) (w : World) (v i : Nat) (k : Sin
     t.2.2.2.2.2.2.2⟩, ?_, ?_⟩
   · intro hi; exact KernelTie.remove_reject_tie cfg w v i k d hv hl hi
   · intro h0; exact (KernelTie.pop_empty_tie cfg w v k d hv hl h0).2
+
+/-- **source tie**: the model's erased copy routine is `crate::copy_bytes` of `/repo/src/lib.rs` as re-translated on this
+run: `ptr::copy` and nothing else from 128 bytes up, otherwise exactly one byte loop - ascending when the destination
+is not above the source, descending when it is (the theorem `copy_bytes_is_memmove` above then says that each of these
+is a correct overlapping move). -/
+theorem copy_bytes_is_the_source (m : Mem) (size src dst n : Nat) :
+    copyBytes m size src dst n =
+      KernelTie.runB m src dst n (Gen.Kernel.copy_bytes_prog (size * n) (decide (dst ≤ src)) false) :=
+  KernelTie.copy_bytes_tie m size src dst n
 
 end C01
 end AnyVec
